@@ -7,8 +7,11 @@ from corpus import corpus
 import astenv
 from astenv import coq_sval, coq_json, Interner, drop_nulls, dump_types, walk_dump
 
-HEADER = ("Require Import SqlV.Base SqlV.Univ SqlV.Serde SqlVGen.TypeEnv SqlVProps.C17.\n"
-          "From Coq Require Import ZArith.\n")
+# case files depend on the model and the generated environment only, so the correspondence still
+# runs when a proof or a side condition of Properties/C17.v is broken
+HEADER = ("Require Import SqlV.Base SqlV.Univ SqlV.Serde SqlVGen.TypeEnv.\n"
+          "From Coq Require Import ZArith.\n"
+          "Definition serde_env : env := Eval vm_compute in reach_env type_env_full [s2l \"Statement\"; s2l \"Token\"].\n")
 SERDE_ROOTS = ["Statement", "Token"]
 
 # statements that exercise optional clauses the harvested test strings may leave at their defaults
@@ -292,14 +295,17 @@ def check(run):
                                    "declarations_never_seen": sorted(base_reach - decl_cov)[:60]}
 
     # ---- model vs implementation in the kernel VM
-    model_ok = os.path.exists(os.path.join(COQ, "theories/Serde.vo")) and os.path.exists(os.path.join(COQ, "Properties/C17.vo"))
+    deps_ok = True
+    if not pr["make_ok"]:
+        deps_ok, _ = coq_make(["theories/Serde.vo", "gen/TypeEnv.vo"])
+    model_ok = deps_ok and os.path.exists(os.path.join(COQ, "theories/Serde.vo")) and os.path.exists(os.path.join(COQ, "gen/TypeEnv.vo"))
     corr_bad = []
     if model_ok:
         sel = select_cases(run, stmts, 800 if not thorough else 10 ** 9, 2500 if not thorough else 20000)
         sel += select_cases(run, toks, 150 if not thorough else 10 ** 9, 2500 if not thorough else 20000)
         corr_bad = correspondence(run, sel)
-    elif pr["make_ok"] is False:
-        run.notes["correspondence"] = "not run: Properties/C17.vo does not build"
+    else:
+        run.notes["correspondence"] = "not run: theories/Serde.vo or gen/TypeEnv.vo does not build"
 
     # ---- broken obligations: directed search, then report
     issues = diagnose(env)
